@@ -133,8 +133,18 @@ func checkOf(c Case) *vk.Failure {
 	return nil
 }
 
-func checkBitmap(c Case) *vk.Failure {
+var scratch vk.Scratch
+
+func checkBitmap(c Case) (f *vk.Failure) {
 	words := c.Words.Clone()
+	if reused := scratch.Reuse(vk.SumU64(c.Words)); reused {
+		words = scratch.U64(c.Words) // every other case: a reused buffer with guarded spare capacity
+		defer func() {
+			if msg := scratch.Check(); f == nil && msg != "" {
+				f = vk.Failf("argument-spare-capacity-written", "%s", msg)
+			}
+		}()
+	}
 	nbits := 64 * len(words)
 	var want []int32
 	for i := 0; i < nbits; i++ {
@@ -645,6 +655,22 @@ func TestGrid(t *testing.T) {
 		for _, n := range []int32{math.MinInt32, -1, 0, 1, 63, 64, 65, 128, 129, 130, 192, 1000} {
 			checker.Run(t, Case{Op: "of", Positions: pos, HasN: true, N: n, Class: "grid"})
 		}
+	}
+	// long lists and bitmaps (size thresholds)
+	for _, n := range []int{65535, 65536, 65537, 200001} {
+		for _, stride := range []int{1, 3, 64, 129} {
+			pos := make([]int32, n)
+			for i := range pos {
+				pos[i] = int32(i*stride + i%stride)
+			}
+			checker.Run(t, Case{Op: "of", Positions: pos, Class: "grid-long"})
+			checker.Run(t, Case{Op: "of", Positions: pos, HasN: true, N: pos[n-1] + 70, Class: "grid-long"})
+		}
+		w := make(vk.Words, n/16)
+		for i := range w {
+			w[i] = vk.Mix(uint64(i)+uint64(n)) & vk.Mix(uint64(i)*3)
+		}
+		checker.Run(t, Case{Op: "bitmap", Words: w, Probes: []int32{0, int32(64*len(w)) - 1, 65536, 65535}, Class: "grid-long"})
 	}
 	vk.MarkExhaustive("Of on all subsets of {0,1,62,63,64,65,127,128} x n in {absent, MinInt32, -1, 0, 1, 63, 64, 65, 128, 129, 130, 192, 1000}")
 }
